@@ -1,8 +1,10 @@
-"""Per-property pipelines: which models TLC exhausts, which harnesses record, which trace specs validate."""
+"""Registry of per-property pipelines.  Family modules p_*.py register themselves on import."""
+import importlib, os, pkgutil
 from . import core
 
 Q, T = "quick", "thorough"
 PROPS = {}
+JOBS = {}     # name -> trace job dict (shared between properties: C06 and C09 re-run family jobs in their own profile)
 
 def prop(pid, level, rule, assumptions):
     def deco(f):
@@ -10,48 +12,18 @@ def prop(pid, level, rule, assumptions):
         return f
     return deco
 
+def job(name, **kw):
+    kw["name"] = name
+    JOBS[name] = kw
+    return kw
+
 def mc_all(oc, runs, tier):
     for r in runs:
         if r.get("tier", Q) == T and tier != T:
             continue
         oc.mc.append(core.model_check(r["module"], r["cfg"], workers=r.get("workers", 8), timeout=r.get("timeout", 900), heap=r.get("heap", "8g")))
 
-# ------------------------------------------------------------------------------------------------ Theta (C01)
-def theta_nontrivial(evs):
-    # a segment is non-trivial if theta was lowered by an update (rebuild) at least once
-    last = {}
-    for e in evs:
-        if e["e"] == "Update":
-            if e["id"] in last and e["thetaH"] != last[e["id"]]:
-                return True
-            last[e["id"]] = e["thetaH"]
-        elif e["e"] in ("New", "Reset", "Copy"):
-            last.pop(e.get("id", e.get("dst")), None)
-    return False
-
-THETA_JOB = dict(
-    harness="theta_rec", inc=["common", "theta"], spec="TraceTheta",
-    files={Q: 8, T: 48},
-    args=lambda tier, seed, k: ["--seed", seed, "--segments", 5 if tier == Q else 10, "--events", 700 + 150 * (k % 5),
-                                "--maxlgk", 9 if tier == Q else (13 if k % 4 == 0 else 10)],
-    nontrivial=theta_nontrivial,
-)
-
-THETA_MC = [
-    dict(module="ThetaDesign", cfg="MC_ThetaDesign.cfg"),
-    dict(module="ThetaDesign", cfg="MC_ThetaDesign_rf0.cfg"),
-    dict(module="ThetaDesign", cfg="MC_ThetaDesign_p.cfg"),
-    dict(module="MC_Theta", cfg="MC_Theta.cfg"),
-]
-
-@prop("C01", "model_checking",
-      "MC: exhaustive TLC runs of the Theta design model refining the contract, and of the multi-object contract itself; "
-      "traces: randomized histories of the real update_theta_sketch (all 12 input overloads, p, resize factors, seeds, trim/reset/copy/compact/serde), "
-      "every event validated by TLC against the contract with REFERENCE MurmurHash3 hashes; a segment (Begin..next Begin) is non-trivial when theta "
-      "was lowered by at least one update (a rebuild happened); distinct = distinct segment content hash",
-      ["harness/refhash.hpp is the published MurmurHash3_x64_128 (self-checked on published vectors at start-up)",
-       "traces cover lg_k 5..9 (quick) / 5..13 (thorough); larger configurations only through the parametric model",
-       "TLC 32-bit ints: 63-bit hashes are renamed order-isomorphically (bin/vlib/munge.py); the contract uses only order/equality on them"])
-def run_c01(oc, repo, seed, tier):
-    mc_all(oc, THETA_MC, tier)
-    core.trace_job(oc, THETA_JOB, repo, seed, tier)
+def load_all():
+    here = os.path.dirname(os.path.abspath(__file__))
+    for m in sorted(f[:-3] for f in os.listdir(here) if f.startswith("p_") and f.endswith(".py")):
+        importlib.import_module("vlib." + m)
